@@ -3866,8 +3866,8 @@ class ScoreVariant(object):
                     elif isinstance(o, Clef):
                         prev = next(tp_new.iter_prev(Clef), None)
                         if (prev is not None) and (
-                            (o.sign, o.line, o.staff)
-                            == (prev.sign, prev.line, prev.staff)
+                            (o.sign, o.line, o.staff, o.octave_change)
+                            == (prev.sign, prev.line, prev.staff, prev.octave_change)
                         ):
                             continue
 
